@@ -31,6 +31,12 @@ func (p *Program) ConstTableOf(obj types.Object) []int64 {
 	}
 	tableMu.Lock()
 	defer tableMu.Unlock()
+	return p.constTableOfLocked(obj, v)
+}
+
+// constTableOfLocked does the work of ConstTableOf with tableMu held (a table
+// may be computed from another table of the package).
+func (p *Program) constTableOfLocked(obj types.Object, v *types.Var) []int64 {
 	if tableTried[obj] {
 		return tableCache[obj]
 	}
@@ -79,7 +85,12 @@ func (p *Program) ConstTableOf(obj types.Object) []int64 {
 			}
 			if lit, isLit := ast.Unparen(x.Fun).(*ast.FuncLit); isLit {
 				// var t = func() (t [256]byte) { ... }()
-				out = foldTableBody(info, lit.Type, lit.Body)
+				out = foldTableBodyWith(info, lit.Type, lit.Body, func(o types.Object) []int64 {
+					if gv, isVar := o.(*types.Var); isVar && gv.Pkg() != nil && gv.Parent() == gv.Pkg().Scope() {
+						return p.constTableOfLocked(o, gv)
+					}
+					return nil
+				})
 				return
 			}
 			fn := p.funcOfUnlocked(Callee(info, x))
@@ -107,11 +118,12 @@ type foldVal struct {
 }
 
 type folder struct {
-	info  *types.Info
-	env   map[types.Object]*foldVal
-	steps int
-	ret   *foldVal
-	fail  bool
+	info   *types.Info
+	env    map[types.Object]*foldVal
+	steps  int
+	ret    *foldVal
+	fail   bool
+	global func(types.Object) []int64 // package-level tables the body may read
 }
 
 // foldTableFunc interprets a parameterless function that builds and returns
@@ -127,7 +139,13 @@ func foldTableFunc(fn *Func) []int64 {
 // foldTableBody interprets the body of a parameterless function (declared or
 // literal) with one result.
 func foldTableBody(info *types.Info, ft *ast.FuncType, body *ast.BlockStmt) []int64 {
-	f := &folder{info: info, env: map[types.Object]*foldVal{}}
+	return foldTableBodyWith(info, ft, body, nil)
+}
+
+// foldTableBodyWith is foldTableBody with a resolver for package-level
+// tables the body reads.
+func foldTableBodyWith(info *types.Info, ft *ast.FuncType, body *ast.BlockStmt, global func(types.Object) []int64) []int64 {
+	f := &folder{info: info, env: map[types.Object]*foldVal{}, global: global}
 	if ft.Params != nil && len(ft.Params.List) != 0 {
 		return nil
 	}
@@ -408,6 +426,11 @@ func (f *folder) expr(e ast.Expr) foldVal {
 	case *ast.Ident:
 		if v := f.env[f.info.ObjectOf(x)]; v != nil {
 			return *v
+		}
+		if f.global != nil {
+			if t := f.global(f.info.ObjectOf(x)); t != nil {
+				return foldVal{arr: t, ok: true}
+			}
 		}
 	case *ast.IndexExpr:
 		a := f.expr(x.X)
